@@ -760,6 +760,11 @@ impl<T> AsRef<Located<T>> for Located<T> {
     }
 }
 
+/// Renders a located keyword in upper case. The trivia in front of it (whitespace, comments) is left as it is.
+fn upper<T: Display>(located: &Located<T>) -> Located<String> {
+    located.map(|t| t.to_string().to_uppercase())
+}
+
 impl<T> Located<T> {
     /// Borrow the [Located] and map the data to something else
     pub fn map<U, F: Fn(&T) -> U>(&self, map_fn: F) -> Located<U> {
@@ -919,7 +924,7 @@ impl Display for Token {
     fn fmt(&self, f: &mut Formatter) -> std::fmt::Result {
         match self {
             Token::Align { tag, value } => {
-                write!(f, "{}{}", format!("{}", tag).to_uppercase(), value)
+                write!(f, "{}{}", upper(tag), value)
             }
             Token::Assert {
                 tag,
@@ -933,7 +938,7 @@ impl Display for Token {
                 write!(
                     f,
                     "{}{}{}",
-                    format!("{}", tag).to_uppercase(),
+                    upper(tag),
                     value,
                     failure_message
                 )
@@ -948,7 +953,7 @@ impl Display for Token {
                 write!(
                     f,
                     "{}{}",
-                    format!("{}", size).to_uppercase(),
+                    upper(size),
                     format_arglist(values)
                 )
             }
@@ -957,7 +962,7 @@ impl Display for Token {
                     .as_ref()
                     .map(|c| format!("{}", c))
                     .unwrap_or_else(|| "".to_string());
-                write!(f, "{}{}{}", format!("{}", tag).to_uppercase(), id, value)
+                write!(f, "{}{}{}", upper(tag), id, value)
             }
             Token::Eof(triv) => {
                 write!(f, "{}", format_trivia(&triv.trivia))
@@ -977,13 +982,13 @@ impl Display for Token {
                 else_,
             } => {
                 let else_ = match (tag_else, else_) {
-                    (Some(tag), Some(e)) => format!("{}{}", format!("{}", tag).to_uppercase(), e),
+                    (Some(tag), Some(e)) => format!("{}{}", upper(tag), e),
                     _ => "".to_string(),
                 };
                 write!(
                     f,
                     "{}{}{}{}",
-                    format!("{}", tag_if).to_uppercase(),
+                    upper(tag_if),
                     value,
                     if_,
                     else_
@@ -1024,7 +1029,7 @@ impl Display for Token {
             Token::Instruction(i) => match &i.operand {
                 Some(o) => {
                     let suffix = match &o.suffix {
-                        Some(s) => format!("{}{}", s.comma, s.register.to_string().to_uppercase()),
+                        Some(s) => format!("{}{}", s.comma, upper(&s.register)),
                         None => "".to_string(),
                     };
 
@@ -1073,7 +1078,7 @@ impl Display for Token {
                 expr,
                 block,
             } => {
-                write!(f, "{}{}{}", format!("{}", tag).to_uppercase(), expr, block)
+                write!(f, "{}{}{}", upper(tag), expr, block)
             }
             Token::MacroDefinition {
                 tag,
@@ -1086,7 +1091,7 @@ impl Display for Token {
                 write!(
                     f,
                     "{}{}{}{}{}{}",
-                    format!("{}", tag).to_uppercase(),
+                    upper(tag),
                     id,
                     lparen,
                     format_arglist(args),
@@ -1110,7 +1115,7 @@ impl Display for Token {
                     Some(i) => format!("{}", i),
                     None => "".to_string(),
                 };
-                write!(f, "{}{}{}", format!("{}", tag).to_uppercase(), id, block)
+                write!(f, "{}{}{}", upper(tag), id, block)
             }
             Token::Test { tag, id, block } => {
                 write!(f, "{}{}{}", tag.map(|t| t.to_uppercase()), id, block)
@@ -1126,7 +1131,7 @@ impl Display for Token {
                     tag.map(|t| t.to_uppercase()),
                     encoding
                         .as_ref()
-                        .map(|t| format!("{}", t).to_uppercase())
+                        .map(|t| upper(t).to_string())
                         .unwrap_or_default(),
                     text,
                 )
@@ -1159,7 +1164,7 @@ impl Display for Token {
                 write!(
                     f,
                     "{}{}{}{}",
-                    format!("{}", ty).to_uppercase(),
+                    upper(ty),
                     id,
                     eq,
                     value
